@@ -12,6 +12,11 @@ type VLANRange struct {
 	End   uint16 `json:"end"`
 }
 
+// contains reports whether a VLAN ID lies inside the range.
+func (r VLANRange) contains(vid uint16) bool {
+	return vid >= r.Start && vid <= r.End
+}
+
 // VLANAllocatorConfig contains configuration for VLAN allocation.
 type VLANAllocatorConfig struct {
 	// STagRange is the range of S-TAG (outer VLAN) values.
@@ -104,13 +109,14 @@ func (v *VLANAllocator) AllocateWithSTag(nteID string, sTag uint16) (*VLANAlloca
 	v.mu.Lock()
 	defer v.mu.Unlock()
 
+	if !v.config.STagRange.contains(sTag) {
+		return nil, fmt.Errorf("S-TAG %d outside configured range [%d-%d]",
+			sTag, v.config.STagRange.Start, v.config.STagRange.End)
+	}
+
 	// Check if already allocated
-	if alloc, ok := v.allocations[nteID]; ok {
-		if alloc.STag == sTag {
-			return alloc, nil
-		}
-		// Different S-TAG requested, need to reallocate
-		v.releaseUnlocked(nteID)
+	if alloc, ok := v.allocations[nteID]; ok && alloc.STag == sTag {
+		return alloc, nil
 	}
 
 	// Find available C-TAG for this S-TAG
@@ -118,6 +124,9 @@ func (v *VLANAllocator) AllocateWithSTag(nteID string, sTag uint16) (*VLANAlloca
 	if err != nil {
 		return nil, err
 	}
+
+	// Different S-TAG requested: give up the old pair only now that the new one is secured
+	v.releaseUnlocked(nteID)
 
 	alloc := &VLANAllocation{
 		STag:  sTag,
